@@ -66,6 +66,7 @@ type checkOutcome struct {
 	solveMs    int64
 	bySolver   map[string]int
 	vacuityBad []string
+	pkgsUsed   map[string]bool
 }
 
 func hasTag(tags []string, p string) bool {
@@ -89,6 +90,12 @@ func runProperty(w *World, prop string, cfg RunConfig, only string) *checkOutcom
 		pkgPaths = append(pkgPaths, p)
 	}
 	sort.Strings(pkgPaths)
+	type pkgScan struct {
+		name string
+		scan []string
+		from int
+	}
+	var pkgScans []pkgScan
 	for _, pp := range pkgPaths {
 		pi := w.Pkgs[pp]
 		k := pi.Contracts
@@ -98,7 +105,8 @@ func runProperty(w *World, prop string, cfg RunConfig, only string) *checkOutcom
 		if only != "" && pi.Name != only {
 			continue
 		}
-		oc.scan = append(oc.scan, k.Scan...)
+		scanFrom := len(sel)
+		pkgScans = append(pkgScans, pkgScan{pi.Name, k.Scan, scanFrom})
 		var keys []string
 		for key, fi := range pi.Funcs {
 			if fi.Spec != nil && !fi.Spec.Inline {
@@ -165,6 +173,19 @@ func runProperty(w *World, prop string, cfg RunConfig, only string) *checkOutcom
 			}
 		}
 	}
+	// the assumption lists of the packages that contributed obligations of this property
+	pkgsUsed := map[string]bool{}
+	for i, ps := range pkgScans {
+		to := len(sel)
+		if i+1 < len(pkgScans) {
+			to = pkgScans[i+1].from
+		}
+		if to > ps.from {
+			oc.scan = append(oc.scan, ps.scan...)
+			pkgsUsed[ps.name] = true
+		}
+	}
+	oc.pkgsUsed = pkgsUsed
 	oc.genMs = time.Since(t0).Milliseconds()
 	t1 := time.Now()
 	Discharge(sel, counts, cfg)
@@ -246,6 +267,16 @@ var namedAssumptions = []string{
 	"A8: configuration sanity (TimestampIncrement >= 1, 0 < TimePerBlock <= 2^36 ns, TimePerBlock <= MaxTimePerBlock <= 2^40 ns, previous timestamp + increment < 2^64, enabling height in [-1, 2^32))",
 	"A9: stdlib contracts assumed (slices.Index/Delete, clear, append, time.Time.Sub/UnixNano/IsZero, clock readings within 1970..2116)",
 	"integers: mathematical Int with explicit range facts per Go type; int/uint are 64 bit; overflow is an obligation except where the contract file says 'wraps' (listed)",
+}
+
+var consensusAssumptions = []string{
+	"T1: the verifier itself (govc: Go semantics of the supported subset; struct values held in slices are references to copies; pointers to non-struct values are per-type boxes), go/types, the SMT solvers",
+	"T2: partial correctness only; termination is not proved",
+	"A-GOB: encoding/gob is not modelled beyond its interface: Encode receives the value it is given, Decode leaves an arbitrary value of the pointee's type. That Decode reproduces what Encode was given, that different values have different encodings and that trailing bytes are ignored is assumed, not proved; the round trip and the sensitivity of the hash to every field follow from the proved field-completeness clauses only together with this assumption",
+	"A-HASH: crypto.Hash256 is a function of the bytes (pure); SHA-256 collision resistance, ECDSA correctness and the Merkle construction (internal/crypto, internal/merkle, Go's crypto) are outside the contracts; merkle.NewMerkleTree/Root are assumed to return a root for a non-empty list",
+	"A-DISPATCH: interface values of dbft.ConsensusPayload and Serializable handled inside the package are its own *Payload and body types (the extern clauses for ConsensusPayload.SetValidatorIndex, Serializable.EncodeBinary/DecodeBinary restate the proved contracts of those methods)",
+	"A-FRESH: an object allocated by new/&T{} differs from every reference the state held before (Go allocation)",
+	"integers: mathematical Int with explicit range facts per Go type; overflow is an obligation except where the contract file says 'wraps' (listed)",
 }
 
 func cmdCheck(args []string) int {
@@ -384,6 +415,9 @@ func cmdCheck(args []string) int {
 	sort.Strings(warns)
 	sort.Strings(oc.funcs)
 	trusted := append([]string{}, namedAssumptions...)
+	if oc.pkgsUsed["consensus"] && len(oc.pkgsUsed) == 1 {
+		trusted = append([]string{}, consensusAssumptions...)
+	}
 	for _, s := range oc.scan {
 		trusted = append(trusted, "contract file: "+s)
 	}
@@ -442,6 +476,7 @@ var propertyExplanation = map[string]string{
 	"C15": "Functional post-conditions of Fill and getTimestamp, argument obligation at NewPrepareRequest, writers table for the proposal fields, the timestamp base is fixed within a height.",
 	"C16": "PARTIAL: per-call mechanism clauses of the dynamic block time extension; network-time spacing is not decided.",
 	"C17": "PARTIAL: typestate assertion on the example's event loop (never waits with a decided instance) against assumed API contracts.",
+	"C19": "Reference payload/block code: every field goes to the encoder and comes back from the decoder, the payload hash cache is never filled, the hashed block data is exactly the header, rebuilt recovery payloads carry the stored fields, decoders do not panic. gob, SHA-256, ECDSA and the Merkle tree are assumed (A-GOB, A-HASH).",
 	"C18": "Data invariant of timer.Timer over a ghost model of clock, channel and time.Timer deadlines; scheduling tolerance not decided.",
 }
 
